@@ -2,5 +2,5 @@
 EXTENDS FileWorker
 \* event e has MC_EvSize[e] bytes including the separator (>= 3, so that a torn 1-byte
 \* prefix followed by a separator differs from every complete event)
-MC_EvSize == <<3, 4, 3, 4, 3, 4, 3, 4, 3, 4, 3, 4, 3, 4, 3, 4, 3, 4, 3, 4, 3, 4, 3, 4>>
+MC_EvSize == <<3, 4, 3, 4, 3, 4, 3, 4, 3, 4, 3, 4, 3, 4, 3, 4, 3, 4, 3, 4, 3, 4, 3, 4, 3, 4, 3, 4, 3, 4>>
 =============================================================================
